@@ -30,7 +30,13 @@ type c16Obs struct {
 	bad      string
 }
 
+// c16Nested: declare everything on a sub-command `sub` (initialised lazily) instead of on the application
+var c16Nested bool
+
 func c16Run(opts []string, args []string, version bool, spec string, argv []string, twice bool) c16Obs {
+	if c16Nested {
+		return c16RunNested(opts, args, spec, argv)
+	}
 	os.Setenv("VQ_E", "ev")
 	app := cli.App("app", "")
 	os.Unsetenv("VQ_E")
@@ -200,6 +206,11 @@ func runImplicit(c *Ctx) {
 				for _, argv := range ref.Argvs(c16Alphabet(opts, version), alen) {
 					c.Beat()
 					implicitCase(c, opts, args, version, argv)
+					if !version && len(argv) <= 3 {
+						c16Nested = true
+						implicitCase(c, opts, args, version, argv)
+						c16Nested = false
+					}
 				}
 			}
 		}
@@ -209,7 +220,9 @@ func runImplicit(c *Ctx) {
 
 func replayImplicit(c *Ctx, cs Case) {
 	v, _ := cs["version"].(bool)
+	c16Nested, _ = cs["nested"].(bool)
 	implicitCase(c, cStrs(cs, "opts"), cStrs(cs, "args"), v, cStrs(cs, "argv"))
+	c16Nested = false
 }
 
 func implicitCase(c *Ctx, opts, args []string, version bool, argv []string) {
@@ -221,7 +234,13 @@ func implicitCase(c *Ctx, opts, args []string, version bool, argv []string) {
 		c.Count("nontrivial", 1)
 	}
 	key := fmt.Sprintf("options=%v args=%v version=%v argv=%q", opts, args, version, argv)
-	cs := func() Case { return Case{"opts": opts, "args": args, "version": version, "argv": argv} }
+	if c16Nested {
+		key += " on-subcommand"
+	}
+	nested := c16Nested
+	cs := func() Case {
+		return Case{"opts": opts, "args": args, "version": version, "argv": argv, "nested": nested}
+	}
 	if explicit == "" {
 		// nothing declared: the explicit spec is empty too (an empty Spec *is* the implicit case); judge directly
 		if a.accepted != (len(argv) == 0 || (len(argv) == 1 && argv[0] == "--")) || a.bad != "" {
@@ -241,6 +260,9 @@ func implicitCase(c *Ctx, opts, args []string, version bool, argv []string) {
 	}
 	if !a.accepted && !(version && len(argv) > 0 && (argv[0] == "-v")) {
 		want := "Usage: app " + explicit
+		if c16Nested {
+			want = "Usage: app sub " + explicit
+		}
 		if !hasLine(a.stderr, want) {
 			c.Violation("C16", key+" (usage line)", cs(), "usage line `"+want+"`", fmt.Sprintf("%q", firstLines(a.stderr, 4)))
 		}
@@ -248,4 +270,76 @@ func implicitCase(c *Ctx, opts, args []string, version bool, argv []string) {
 	if a.accepted && len(argv) >= 2 && c.WantSample("implicit") {
 		c.Sample("implicit", Case{"options": opts, "args": args, "version": version, "explicit_spec": explicit, "argv": argv, "both": a.vals})
 	}
+}
+
+func c16RunNested(opts []string, args []string, spec string, argv []string) c16Obs {
+	var obs c16Obs
+	ran := 0
+	app := cli.App("app", "")
+	app.ErrorHandling = flag.ContinueOnError
+	app.Command("sub", "", func(cmd *cli.Cmd) {
+		cmd.Spec = spec
+		var readers []func() string
+		var sbus []*bool
+		os.Setenv("VQ_E", "ev")
+		for _, o := range opts {
+			s := new(bool)
+			sbus = append(sbus, s)
+			switch o {
+			case "f":
+				p := cmd.Bool(cli.BoolOpt{Name: "f ff", SetByUser: s})
+				readers = append(readers, func() string { return fmt.Sprintf("f=%v", *p) })
+			case "o":
+				p := cmd.String(cli.StringOpt{Name: "o oo", SetByUser: s})
+				readers = append(readers, func() string { return fmt.Sprintf("o=%q", *p) })
+			case "m":
+				p := cmd.Strings(cli.StringsOpt{Name: "m mm", SetByUser: s})
+				readers = append(readers, func() string { return fmt.Sprintf("m=%q", *p) })
+			case "e":
+				p := cmd.String(cli.StringOpt{Name: "e ee", EnvVar: "VQ_E", SetByUser: s})
+				readers = append(readers, func() string { return fmt.Sprintf("e=%q", *p) })
+			}
+		}
+		os.Unsetenv("VQ_E")
+		for i, a := range args {
+			name := c16ArgName(i)
+			s := new(bool)
+			sbus = append(sbus, s)
+			switch a {
+			case "single":
+				p := cmd.String(cli.StringArg{Name: name, SetByUser: s})
+				readers = append(readers, func() string { return fmt.Sprintf("%s=%q", name, *p) })
+			case "envsingle":
+				os.Setenv("VQ_E2", "fromenv")
+				p := cmd.String(cli.StringArg{Name: name, EnvVar: "VQ_E2", SetByUser: s})
+				os.Unsetenv("VQ_E2")
+				readers = append(readers, func() string { return fmt.Sprintf("%s=%q", name, *p) })
+			default:
+				p := cmd.Strings(cli.StringsArg{Name: name, SetByUser: s})
+				readers = append(readers, func() string { return fmt.Sprintf("%s=%q", name, *p) })
+			}
+		}
+		cmd.Action = func() {
+			ran++
+			var v, b []string
+			for _, r := range readers {
+				v = append(v, r())
+			}
+			for _, s := range sbus {
+				b = append(b, fmt.Sprint(*s))
+			}
+			obs.vals, obs.sbu = strings.Join(v, " "), strings.Join(b, ",")
+		}
+	})
+	sharedBuf.Reset()
+	o := runDirect(&sharedBuf, func() error { return app.Run(append([]string{"app", "sub"}, argv...)) })
+	obs.stderr = sharedBuf.String()
+	if o.Panicked || len(o.Exits) > 0 || ran > 1 {
+		obs.bad = fmt.Sprintf("panic=%v exits=%v ran=%d", safeSprint(o.PanicVal), o.Exits, ran)
+	}
+	if o.Err != nil {
+		obs.err = o.Err.Error()
+	}
+	obs.accepted = o.Returned && o.Err == nil && ran == 1
+	return obs
 }
